@@ -217,6 +217,13 @@ impl SegmentLogReader {
         Ok(())
     }
 
+    /// Returns the position of the first byte after the batch which starts at the given position,
+    /// or `None` when the batch is not completely in the file.
+    pub async fn batch_end_position(&self, position: u64) -> Result<Option<u64>, IggyError> {
+        let batch = self.read_next_batch(position, self.file_size()).await?;
+        Ok(batch.map(|(_, bytes_read)| position + bytes_read))
+    }
+
     async fn read_next_batch(
         &self,
         offset: u64,
